@@ -1,5 +1,27 @@
-/- line-protocol driver for C01: the shared key life-cycle script (same lines as harness/drv/src/bin/c01.rs) -/
+/- line-protocol driver for C01: the shared key life-cycle script (same lines as harness/drv/src/bin/c01.rs);
+   a case that starts with `mfd <drv>` is a multi-descriptor case and runs on `Compio.MultiFd` -/
 import Compio.Model.KeyLifeScript
+import Compio.Model.MultiFd
+
+structure C01St where
+  k : Compio.KeyLife.Script.Sim
+  m : Option Compio.MultiFd.Sim
+
+def c01Step (s : C01St) (ln : String) : C01St × String :=
+  if ln.startsWith "#case" then
+    let (k, o) := Compio.KeyLife.Script.stepLine s.k ln
+    (⟨k, none⟩, o)
+  else
+    match Compio.words ln with
+    | ["mfd", d] => ({ s with m := some (Compio.MultiFd.Sim.init (if d = "poll" then .poll else .iour)) }, "ok | -")
+    | w =>
+      match s.m with
+      | some m =>
+        let (m', o) := Compio.MultiFd.exec m w
+        ({ s with m := some m' }, o)
+      | none =>
+        let (k, o) := Compio.KeyLife.Script.stepLine s.k ln
+        ({ s with k := k }, o)
 
 def main : IO Unit :=
-  Compio.stdinLoop Compio.KeyLife.Script.stepLine (Compio.KeyLife.Script.Sim.init .iour 1024)
+  Compio.stdinLoop c01Step ⟨Compio.KeyLife.Script.Sim.init .iour 1024, none⟩
